@@ -53,9 +53,13 @@ Definition record_eqb (a b : record) : bool :=
 Definition rec_bytes (r : record) : N :=
   recordFixedBytes + (if r_from r =? 0 then 0 else 2) + (if r_cno r =? 0 then 0 else 2)
   + (match r_id r with TBarrier _ _ _ _ => 25 | _ => 4 end).
-(* SizeBytes as used by the Pebble page reader *)
-Definition rec_size (r : record) : N :=
+(* the Pebble page reader budgets with the size of the re-encoded compatibility message
+   (45-byte header, seven 4-byte length prefixes, the channel id, a 12-byte timestamp trailer,
+   the strings and the payload) and reads rows with a budget on the raw payload length *)
+Definition rec_pay_len (r : record) : N :=
   match r_id r with TBarrier _ _ _ _ => 25 | _ => 4 end.
+Definition rec_size (r : record) : N :=
+  pebbleRecordFixedBytes + (if r_from r =? 0 then 0 else 2) + (if r_cno r =? 0 then 0 else 2) + rec_pay_len r.
 
 (* digestProposalEntry: the hashed tuple itself *)
 Inductive digest :=
@@ -521,11 +525,17 @@ Fixpoint read_page (k : store_kind) (rp : replica) (p : manifest) (through maxBy
   | O => inl EOther
   | S fuel' =>
     if through <? m_last p then (if lenN acc =? 0 then inl EBackpressured else inr acc)
+    else if (match k with SPebble => maxBytes <=? used | SMem => false end) then inr acc
     else match rows_range rp (m_base p + 1) (N.to_nat (m_last p - m_base p)) with
     | None => (match k with SMem => inl ENotReady
                        | SPebble => if lenN acc =? 0 then inl EBackpressured else inr acc end)
     | Some rows =>
       if negb (forallb (fun x => (tag_eqb (i_cmd (fst x)) (m_cmd p))) rows) then inl EConflict
+      else if (match k with
+               | SPebble => (1 <? lenN rows) &&
+                            (maxBytes - used <? fold_left (fun a x => a + rec_pay_len (snd x)) rows 0)
+               | SMem => false end)
+      then (if lenN acc =? 0 then inl EBackpressured else inr acc)
       else
       let cost := match k with SMem => rec_bytes | SPebble => rec_size end in
       (* per-record budget check inside one proposal *)
